@@ -62,24 +62,27 @@ def _root_.Midgard.Dataset.Obj.withRef (ob : Obj) (r : Option Nat) : Obj :=
 The attribute is written as a reference by name when the object is known to the memo, else as an
 embedded sub-group whose `fieldname` is the full name `p + [attr]` (after the `fix:`; it is the name
 the memo gets *before* the recursive `_write`); finally `memo[id(self)] = fieldname`. -/
-def writeArr (h : Heap) : Nat → Nat → Path → WMemo → M (Grp × WMemo)
+def writeArr (h : Heap) (u : Option (List String)) (l : Nat) : Nat → Nat → Path → WMemo → M (Grp × WMemo)
   | 0, _, _, _ => .error .fuel
   | fuel + 1, o, p, memo =>
     match h[o]? with
     | none => .error .dangling
     | some ob =>
+      -- (`unit` and `write_level` are the attributes `FieldType.write` puts on the group of a field;
+      -- an embedded group has neither: `none` / 3 stand for "absent")
+      let a : GAttrs := { fieldname := p, src := o, unit := u, level := l }
       match attrName ob.kind with
-      | none => .ok (.mk { fieldname := p, src := o } (some ob.strip) [], memo)
+      | none => .ok (.mk a (some ob.strip) [], memo)
       | some nm =>
         match ob.ref with
-        | none => .ok (.mk { fieldname := p, src := o } (some ob.strip) [], (o, p) :: memo)
-        | some a =>
-          match memo.lookup a with
-          | some name => .ok (.mk { fieldname := p, src := o, ref := some name } (some ob.strip) [], (o, p) :: memo)
+        | none => .ok (.mk a (some ob.strip) [], (o, p) :: memo)
+        | some x =>
+          match memo.lookup x with
+          | some name => .ok (.mk { a with ref := some name } (some ob.strip) [], (o, p) :: memo)
           | none =>
-            match writeArr h fuel a (p ++ [nm]) ((a, p ++ [nm]) :: memo) with
+            match writeArr h none 3 fuel x (p ++ [nm]) ((x, p ++ [nm]) :: memo) with
             | .error e => .error e
-            | .ok (g, memo') => .ok (.mk { fieldname := p, src := o } (some ob.strip) [(nm, g)], (o, p) :: memo')
+            | .ok (g, memo') => .ok (.mk a (some ob.strip) [(nm, g)], (o, p) :: memo')
 
 def Field.level : Field → Nat
   | .leaf _ _ _ _ _ l => l
@@ -88,12 +91,11 @@ def Field.level : Field → Nat
 /-- `FieldType.write` / `CollectionField.write` of one field into the group `pre + [name]` -/
 def writeField (h : Heap) (lvl : Nat) : Field → Path → WMemo → M (Grp × WMemo)
   | .leaf nm _ o _ u l, pre, memo =>
-    match writeArr h (h.length + 1) o (pre ++ [nm]) memo with
+    match writeArr h u l (h.length + 1) o (pre ++ [nm]) memo with
     | .error e => .error e
-    | .ok (.mk a p subs, memo') =>
+    | .ok (g, memo') =>
       -- `if id(self.data) not in memo: memo[id(self.data)] = fieldname`
-      let memo'' := if (memo'.lookup o).isNone then (o, pre ++ [nm]) :: memo' else memo'
-      .ok (.mk { a with unit := u, level := l } p subs, memo'')
+      .ok (g, if (memo'.lookup o).isNone then (o, pre ++ [nm]) :: memo' else memo')
   | .coll nm _ l fs, pre, memo =>
     match writeFields fs (pre ++ [nm]) memo with
     | .error e => .error e
